@@ -430,6 +430,9 @@ struct Outer {
     inner: Inner,
     tags: Vec<u16>,
     opt: Option<u8>,
+    /// not serialised: makes the payload LARGE (> 16 machine words) — a "reserve the slot first" deserialisation path that
+    /// treats the slot as initialised before the fallible step would run this type's drop glue (String, Vec) on garbage
+    pad: [u64; 20],
 }
 
 impl Serialize for Inner {
@@ -521,7 +524,7 @@ impl<'de> Visitor<'de> for OuterVisitor {
         let inner = seq.next_element()?.ok_or_else(|| de::Error::invalid_length(2, &self))?;
         let tags = seq.next_element()?.ok_or_else(|| de::Error::invalid_length(3, &self))?;
         let opt = seq.next_element()?.ok_or_else(|| de::Error::invalid_length(4, &self))?;
-        Ok(Outer { id, name, inner, tags, opt })
+        Ok(Outer { id, name, inner, tags, opt, pad: [0; 20] })
     }
 }
 impl<'de> Deserialize<'de> for Outer {
@@ -855,6 +858,7 @@ fn parse_payload(t: &[&str]) -> Option<P> {
                 inner: Inner { a: a.parse().ok()?, b: b.parse().ok()? },
                 tags,
                 opt: parse_opt(&rest[len..])?,
+                pad: [0; 20],
             }))
         }
         _ => None,
